@@ -260,6 +260,11 @@ func run(c Case) vt.Verdict {
 	evs := cl.Log.Snapshot()
 	count := map[int]int{}
 	for _, e := range evs {
+		if e.Kind == "enter" && (e.Token < tok || e.Token > tok+uint64(1+c.N)) {
+			// a handler ran for a message that is none of this case's requests (e.g. an empty message)
+			return vt.Verdict{OK: false, Key: k("unknown-message-delivered"), History: evs,
+				Msg: fmt.Sprintf("%s: server %d ran handler %s for a message that is not a request of any call (token %d, payload hash %x): a node that must receive nothing received something", kind, e.Server, e.Method, e.Token, e.PayHash)}
+		}
 		if e.Kind != "enter" || e.Token != tok {
 			continue
 		}
